@@ -55,6 +55,14 @@ def gen(ctx, keys=False):
             evs.append(f"{k1}:key{key}")
             if rng.random() < 0.5:
                 evs.append(f"{rng.randrange(k1, nsteps)}:rel{key}")
+        elif rng.random() < 0.35:
+            # non-zero BP: the program first loads BP (internal memory ECh) and from then on reaches IMR/ISR through the
+            # PRE 30h (n) form, so the default (BP+n) forms of the instructions under test no longer coincide with (n)
+            pre = lambda b: "30" + b if b.startswith("cc") else b
+            body = "".join(pre(b) for b in blocks)
+            main = "ccec%02x" % rng.choice([0x20, 0x33, 0x51, 0x80]) + body
+            main += "13%02x" % (len(main) // 2 + 2)
+            handler = "".join(pre(b) for b in hbody)
         ev = ",".join(evs) or "-"
         cases.append((imr0, ten, mti, sti, main, handler, nsteps, ev))
     return cases
@@ -68,7 +76,7 @@ def boundaries(code, base):
     """instruction start addresses of a code string placed at base"""
     out, i = set(), 0
     b = bytes.fromhex(code)
-    L = {0x00: 1, 0xCC: 3, 0xDE: 1, 0xDF: 1, 0x09: 2, 0xEF: 1, 0x6C: 2, 0x13: 2, 0x01: 1}
+    L = {0x00: 1, 0x30: 4, 0xCC: 3, 0xDE: 1, 0xDF: 1, 0x09: 2, 0xEF: 1, 0x6C: 2, 0x13: 2, 0x01: 1}
     while i < len(b):
         out.add(base + i)
         i += L[b[i]]
